@@ -255,7 +255,9 @@ pub fn run(ctx: &Ctx, model: &mut Model, rep: &mut Report) {
         if i % 8 == 3 && depth <= 6 {
             rep.count("cli_cases");
             rep.evaluations += 1;
-            let case = crate::cli::CliCase { lib: &lib, ext: if i % 16 == 3 { "" } else { ".md" }, sub: if i % 3 == 0 { "" } else { "lib" }, squash: Some((&key, depth)), paths_depth: 3, tag: &format!("c17-{}", i) };
+            // … of a note in a sub-directory when there is one (what is not inlined keeps relative links)
+            let cli_key = lib.iter().map(|(k, _)| k.clone()).filter(|k| k.contains('/') && i % 2 == 1).next().unwrap_or(key.clone());
+            let case = crate::cli::CliCase { lib: &lib, ext: if i % 16 == 3 { "" } else { ".md" }, sub: if i % 3 == 0 { "" } else { "lib" }, squash: Some((&cli_key, depth)), paths_depth: 3, tag: &format!("c17-{}", i) };
             if let Some(w) = crate::cli::check(&case) {
                 rep.fail(case.failure(w));
             }
